@@ -2,8 +2,8 @@
 """Prints the markdown table of seeded changes (seeded/*/meta.json) for DESIGN.md section 10.3."""
 import glob, json, os
 ROOT = os.path.dirname(os.path.dirname(os.path.abspath(__file__)))
-print("| seeded change | breaks | what it needs to manifest | confirmed (builds / tests pass / demo fails with, passes without) | checks run -> exit |")
-print("|---|---|---|---|---|")
+print("| seeded change | breaks | what it needs to manifest | confirmed (builds / tests pass / demo fails with, passes without) | checks run at first verification -> exit | latest re-run of the broken property's check |")
+print("|---|---|---|---|---|---|")
 for d in sorted(glob.glob(os.path.join(ROOT, "seeded", "*"))):
     p = os.path.join(d, "meta.json")
     if not os.path.exists(p):
@@ -15,4 +15,9 @@ for d in sorted(glob.glob(os.path.join(ROOT, "seeded", "*"))):
     needs = (m.get("needs") or "").replace("\n", " ").replace("|", "/")
     if len(needs) > 260:
         needs = needs[:257] + "..."
-    print("| `%s` | %s | %s | %s | %s |" % (m["id"], m["breaks_property"], needs, ok, res))
+    rp = os.path.join(d, "recheck.json")
+    latest = "-"
+    if os.path.exists(rp):
+        r = json.load(open(rp))
+        latest = "exit %s%s" % (r["exit"], ", concrete replay" if r.get("concrete_replay") else (", no-failing-input-found" if r["exit"] == 1 else ""))
+    print("| `%s` | %s | %s | %s | %s | %s |" % (m["id"], m["breaks_property"], needs, ok, res, latest))
